@@ -473,4 +473,39 @@ def rule_fresh(ctx) -> RuleResult:
     return res
 
 
-RULES = [rule_pair, rule_rekey, rule_rec, rule_esc, rule_defer, rule_fresh]
+def rule_namekey(ctx) -> RuleResult:
+    res = RuleResult(
+        "C04.NAMEKEY",
+        "C04",
+        "the branch of Concatenator.update_array_attribute that decides between 'an array attribute of the entity' and 'the values "
+        "of a data set' is not selected by a user-chosen data name (call sites that pass <data>.name as the field must not meet a "
+        "hasattr(entity, '_' + field) test)",
+        floor=2,
+    )
+    p = ctx.p
+    conc = p.cls("Concatenator")
+    ua = conc.methods["update_array_attribute"]
+    ent, fld = ua.params[1], ua.params[2]
+    by_name = [i for i in ast.walk(ua.node) if isinstance(i, ast.If) and unparse(i.test).replace('"', "'") in (f"hasattr({ent}, f'_{{{fld}}}')", f"hasattr({ent}, '_' + {fld})")]
+    name_sites = []
+    for fn in p.all_functions():
+        for c_ in ast.walk(fn.node):
+            if isinstance(c_, ast.Call) and isinstance(c_.func, ast.Attribute) and c_.func.attr == "update_array_attribute" and len(c_.args) >= 2:
+                a = c_.args[1]
+                is_name = unparse(a).endswith(".name")
+                if isinstance(a, ast.Name):
+                    # label = entity.name assigned earlier in the caller
+                    is_name = any(isinstance(x, ast.Assign) and unparse(x.targets[0]) == a.id and unparse(x.value).endswith(".name") for x in ast.walk(fn.node))
+                if is_name:
+                    name_sites.append(f"{fn.qualname}:{c_.lineno}")
+    for s_ in name_sites:
+        res.inst(f"call site passes a data name as field: {s_}", nontrivial=True, ok=not by_name)
+    res.inst(f"update_array_attribute dispatches on hasattr(entity, '_' + field): {bool(by_name)}", nontrivial=True, ok=not (by_name and name_sites))
+    if by_name and name_sites:
+        res.find("Concatenator", "update_array_attribute", "attribute-vs-data branch selected by hasattr(entity, '_' + <data name>)", f"{ua.module.relpath}:{by_name[0].lineno}",
+                 f"the field is the user-chosen data name at {name_sites}: a data set named like a private attribute of its class ('values', 'name', "
+                 "'surveys', ...) takes the attribute branch — wrong object / data ids in the index row, values unreadable after re-opening")
+    return res
+
+
+RULES = [rule_pair, rule_rekey, rule_rec, rule_esc, rule_defer, rule_fresh, rule_namekey]
